@@ -1,0 +1,18 @@
+//go:build verif
+
+package proxy
+
+import "sort"
+
+// VerifC10Names returns the global proxy name table (sorted).  Accessor for the C10
+// correspondence harness; compiled only with -tags verif.
+func (pm *Manager) VerifC10Names() []string {
+	pm.mu.RLock()
+	defer pm.mu.RUnlock()
+	out := make([]string, 0, len(pm.pxys))
+	for n := range pm.pxys {
+		out = append(out, n)
+	}
+	sort.Strings(out)
+	return out
+}
